@@ -4,6 +4,7 @@
 //! and are ignored by the model):
 //!   tde_tape   <enc> <ty> <tape>    <hex> <expect>
 //!   tde_stream <enc> <ty> <rtokens> <hex> <cap> <sched> <expect>
+//!   tde_wft <tape> <hex>            the structural hypothesis `WfT` of the totality theorem holds for the real tape
 //!   x-tde_stream …   same, for inputs where the token-level stream model is not applicable
 //!                    (byte-level skip_container / read_expect_equals differ from token-level reading)
 //!   spec_doc <enc> <ty> <doc> <hex> the Lean SPEC on the abstract document (valueOf | lexemes | tapeOf) against the
@@ -681,6 +682,14 @@ pub fn exec(w: &[&str], obs: &mut Obs) -> Option<String> {
             }
             Some(r)
         }
+        ["tde_wft", tape, h] => {
+            // the structural hypothesis of the totality theorem (Lean `WfT`) holds for every parsed tape
+            let data = unhex(h)?;
+            let real = match TextTape::from_slice(&data) { Ok(t) => t, Err(_) => return Some("bad-case".into()) };
+            if show::text_tape(real.tokens()) != *tape { obs.violation("bad-case", &case(), "tape argument is not the real tape of the input"); return Some("bad-case".into()); }
+            obs.count("wft");
+            Some("wf".into())
+        }
         ["spec_doc", enc, ty, _doc, h] => {
             // the Lean SPEC (valueOf / lexemes / tapeOf of the abstract document) against the real
             // deserializer, reader and tape parser on the canonical rendering of that document
@@ -741,7 +750,10 @@ fn emit_pair_with(g: &mut Gen, enc: Enc, ty: &Ty, data: &[u8], expect: Option<&s
     let e = expect.unwrap_or("-");
     let tys = show_ty(ty);
     match TextTape::from_slice(data) {
-        Ok(t) => g.emit(format!("tde_tape {} {} {} {} {}", enc.name(), tys, show::text_tape(t.tokens()), hex(data), e)),
+        Ok(t) => {
+            g.emit(format!("tde_tape {} {} {} {} {}", enc.name(), tys, show::text_tape(t.tokens()), hex(data), e));
+            if g.rng.chance(1, 3) { g.emit(format!("tde_wft {} {}", show::text_tape(t.tokens()), hex(data))); }
+        }
         Err(_) => g.count("tape-parse-error"),
     }
     let l = lex(data);
